@@ -825,17 +825,23 @@ func c44judge(s c44srv, issued map[string]*c44sess, o *c44obs, class string) (vs
 			return
 		}
 		is, ok := issued[c44ikey(kind, cred)]
+		reason := ""
 		switch {
 		case !ok:
-			why = "not-issued-bytes"
+			reason = "not-issued-bytes"
 		case is.srvID != s.id:
-			why = "foreign-server"
+			reason = "foreign-server"
 		case kind == 'T' && is.keyGen != s.keyGen:
-			why = "stale-key"
+			reason = "stale-key"
 		case kind == 'I' && is.cacheGen != s.cacheGen:
-			why = "flushed-cache"
+			reason = "flushed-cache"
 		default:
 			legit, why = is, "legitimate"
+			return
+		}
+		// the ticket's reason wins over that of the (random) session id accompanying it
+		if why == "no-credential" {
+			why = reason
 		}
 	}
 	consider('T', o.hello.sessionTicket)
